@@ -438,22 +438,22 @@ type provRun struct {
 }
 
 type provOut struct {
-	NewErr    error
-	RunErr    error
-	RunDone   bool
-	RunAt     time.Duration
-	PerCons   [][]gotReq
-	All       []gotReq // in order of Acquire return
-	EndSeen   []bool   // consumer saw ok=false
-	EndAt     []time.Duration
-	ExtractEr []string
-	Cancelled bool
+	NewErr         error
+	RunErr         error
+	RunDone        bool
+	RunAt          time.Duration
+	PerCons        [][]gotReq
+	All            []gotReq // in order of Acquire return
+	EndSeen        []bool   // consumer saw ok=false
+	EndAt          []time.Duration
+	ExtractEr      []string
+	Cancelled      bool
 	CancelledAtEnd bool // the consumers were done before Run returned: the harness cancelled the context as the engine does
-	CancelAt  time.Duration
-	LastGotAt time.Duration
-	Sim       simrt.Result
-	DiskFired map[string]int
-	BadAmmo   int // Acquire returned a non-nil ammo with ok=false (request build failure)
+	CancelAt       time.Duration
+	LastGotAt      time.Duration
+	Sim            simrt.Result
+	DiskFired      map[string]int
+	BadAmmo        int // Acquire returned a non-nil ammo with ok=false (request build failure)
 }
 
 // runProvider builds the provider from its configuration (real config decode and
